@@ -103,7 +103,7 @@ def probe_reads(sh, e, seedtag):
     r0_ids = set((x.name, x.size) for x in R0 if x.__class__.__name__ == 'ExprId')
     r1_mems = set(exprgen.canon(x) for x in R1 if x.__class__.__name__ == 'ExprMem')
     r0_mems = set(exprgen.canon(x) for x in R0 if x.__class__.__name__ == 'ExprMem')
-    envs = [irsem.Env(seed=(seedtag, i)) for i in range(4)]
+    envs = [irsem.Env(seed=(seedtag, i), segmented=True) for i in range(4)]
 
     def outputs(env):
         """The value of the expression (of the source, for an assignment: the statement only asks that
@@ -232,6 +232,9 @@ def ref_match(e, p, wild, res):
     return False
 
 
+REUSED_WILDS = []
+
+
 def run_match(sh, e, p, wilds, what, mutation=None):
     """Evaluate MatchExpr(e,p,wilds) against the reference; `what` in {'instance','mutant'}."""
     ex, mi = exprgen.M()
@@ -244,7 +247,16 @@ def run_match(sh, e, p, wilds, what, mutation=None):
     except irsem.IllFormed:
         return
     try:
-        r = ex.MatchExpr(e, p, list(wilds))
+        # the wildcard container is one list object refilled between calls (a caller's work list): a result must not depend on
+        # what the same container held during an earlier call; the call is repeated with a fresh list and must agree
+        REUSED_WILDS[:] = list(wilds)
+        r = ex.MatchExpr(e, p, REUSED_WILDS)
+        r2 = ex.MatchExpr(e, p, list(wilds))
+        same = (r is False and r2 is False) or (isinstance(r, dict) and isinstance(r2, dict) and
+                                               sorted((exprgen.canon(k), exprgen.canon(v)) for k, v in r.items()) == sorted((exprgen.canon(k), exprgen.canon(v)) for k, v in r2.items()))
+        if not same:
+            sh.violation('match-depends-on-container-history/%s' % (mutation or 'instance'),
+                         'MatchExpr(%s, %s) = %s with a refilled wildcard list but %s with a fresh list' % (e, p, r, r2), wit)
     except Exception as exn:
         sh.violation('match-raises:%s/%s' % (type(exn).__name__, mutation or 'instance'), '%r matching %s against %s' % (exn, e, p), wit)
         return
